@@ -2,7 +2,8 @@
 """Re-run every seeded change under /verif/seeded against the checks recorded in its meta.json (quick tier, scratch worktree and
 private copy of the Lean project per run, so several run in parallel), update meta.json["checks"], and print the markdown table
 used in DESIGN.md §8.
-usage: seed_matrix.py [--only <prefix>] [--table-only] [--targets-only] [--jobs N]"""
+usage: seed_matrix.py [--only <prefix>] [--table-only] [--targets-only] [--jobs N] [--no-write]
+(--no-write: do not update meta.json — for runs with another VERIF_SEED, which only ask whether detection depends on the seed)"""
 import json
 import os
 import subprocess
@@ -33,7 +34,8 @@ def one(name):
             for pid in pids:
                 if line.startswith(pid + ": "):
                     meta.setdefault("checks", {})[pid] = line.split(": ", 1)[1].strip()
-        json.dump(meta, open(mp, "w"), indent=1)
+        if "--no-write" not in sys.argv:
+            json.dump(meta, open(mp, "w"), indent=1)
     det = [p for p, r in meta["checks"].items() if r == "DETECTED"]
     sil = [p for p, r in meta["checks"].items() if r != "DETECTED"]
     det.sort(key=lambda p: (p != tgt, p))
